@@ -9,4 +9,6 @@ require (
 	golang.org/x/crypto v0.48.0
 )
 
+require golang.org/x/sys v0.41.0 // indirect
+
 replace github.com/pion/dtls/v3 => /repo
